@@ -35,7 +35,8 @@ func Endpoint() (string, error) {
 	once.Do(func() {
 		for attempt := 0; attempt < 5; attempt++ {
 			cfg := embed.NewConfig()
-			dir, _ = os.MkdirTemp("", "verif-etcd-")
+			// inside the driver's scratch directory when there is one: a job that is killed (timeout) cannot remove its data itself
+			dir, _ = os.MkdirTemp(os.Getenv("VERIF_SCRATCH"), "verif-etcd-")
 			cfg.Dir = dir
 			cp, pp := freePort(), freePort()
 			lc, _ := url.Parse(fmt.Sprintf("http://127.0.0.1:%d", cp))
